@@ -34,8 +34,28 @@ def run(drv, tier, seed):
     builds = {}
     per_build = {}
     for feats in subsets():
-        binary, bt = drv.build(feats)
         tag = drv.feature_tag(feats)
+        if tag == "hap":
+            binary, bt = drv.build(feats)  # the full build failing is a harness / tree problem, not a C16 verdict
+        else:
+            binary, bt = drv.build(feats, fatal=False)
+            if binary is None:
+                # "under every combination of the optional features the library builds": the full
+                # build works, this one does not
+                path = os.path.join(drv.REPLAYS, f"C16-build_failure-{tag}.trace")
+                os.makedirs(drv.REPLAYS, exist_ok=True)
+                with open(path, "w") as f:
+                    f.write(f"# VIOLATION property=C16 check=build_failure: library + derive macros + command sets do not build with features [{','.join(feats) or 'none'}] (they do with all features)\n")
+                    f.write(f"# build-failure: {tag}\n")
+                    for l in bt.splitlines()[-40:]:
+                        f.write("# " + l + "\n")
+                    f.write("cfg cmd_cap=32 hist_cap=32 prompt=0 set=0 buffered=0 short=0 salt=0 family=none ctor=builder proc=raw\n")
+                drv.say(bt[-2500:])
+                drv.say(f"VIOLATION property=C16 replay={path}")
+                drv.say(f"  check=build_failure: does not build with features [{','.join(feats) or 'none'}]")
+                drv.build()
+                drv.write_evidence(prop, tier, seed, None, time.time() - t0, 1, extra={"build_failure": tag})
+                return 1
         builds[tag] = binary
         drv.say(f"[C16] built feature set [{','.join(feats) or 'none'}] in {bt:.1f}s")
     # restore the default build last so that other checks find target/ warm
